@@ -86,7 +86,7 @@ theorem bindO_erase {o : Outcome (List PVal)} {o' : Outcome (List Val)}
     (hk : ∀ ys, (kP ys).map PVal.erase = k (ys.map PVal.erase)) :
     (bindO o kP).map PVal.erase = bindO o' k := by
   subst ho
-  cases o <;> simp [bindO, Outcome.map, hk]
+  cases o <;> simp [bindO, Outcome.map]
   exact hk _
 
 /-! ### the element-processing disciplines commute with a map of the results -/
